@@ -45,7 +45,7 @@ structure World where
 /-- path ids.  0 /dev/stdin, 1 /dev/stdout, 2 /dev/stderr, 3 /tmp/a, 4 /tmp/b (regular files),
     5 /tmp/m (missing), 6 /tmp/x/n (in a missing directory), 7 /tmp/d (directory),
     8 /tmp/a/e (below a regular file), 9 /tmp/p (regular; what pre-opened descriptors refer to);
-    ≥ 10: anonymous here-document files -/
+    10 /tmp/s (script for `.`); ≥ 11: anonymous here-document files -/
 def pathEnotdir : Nat := 8
 
 def fileAt (w : World) (i : Nat) : File := (w.files[i]?).getD ⟨false, .reg, [], false⟩
@@ -132,7 +132,9 @@ def initialFiles : List File :=
   [ ⟨true, .reg, [], false⟩, ⟨true, .reg, [], false⟩, ⟨true, .reg, [], true⟩,
     ⟨true, .reg, [1, 2], false⟩, ⟨true, .reg, [3, 4], false⟩,
     ⟨false, .reg, [], false⟩, ⟨false, .reg, [], false⟩, ⟨true, .dir, [], false⟩,
-    ⟨false, .reg, [], false⟩, ⟨true, .reg, [5, 6], false⟩ ]
+    ⟨false, .reg, [], false⟩, ⟨true, .reg, [5, 6], false⟩,
+    -- 10: /tmp/s, the script the `.` built-in reads (shell text, reported like a tainted file)
+    ⟨true, .reg, [], true⟩ ]
 
 /-- `VirtualSystem::new`: descriptors 0, 1, 2 on /dev/stdin, /dev/stdout, /dev/stderr, read-write and
     appending -/
@@ -157,6 +159,8 @@ inductive Kind where
   | exec         -- `exec` without operands
   | paren        -- `( fds )`: the guard is the parent's, the body runs in a child
   | commandExec  -- `command exec`: a regular built-in whose result asks to retain the redirections
+  | dot          -- `. /tmp/s` where the script runs `fds`
+  | dotMissing   -- `. /tmp/a/e`: the script cannot be opened
   deriving DecidableEq, Repr
 
 /-- what was seen of one run -/
@@ -174,6 +178,8 @@ structure Trace where
   exited : Option Nat := none
   /-- descriptors the guard held while the body ran -/
   saved : List SavedFd := []
+  /-- the descriptor the `.` built-in reads the script from -/
+  script : Option Fd := none
 
 /-- the probe built-in's I/O: one byte to descriptor 1, up to two bytes from descriptor 0 -/
 def probeIO (w : World) (t : FdTable) : World × Bool × (Option (List Nat) × Bool) :=
@@ -208,7 +214,7 @@ def runCommand (w : World) (t : FdTable) (k : Kind) (rs : List Redir) (prev : Na
     | some _ =>
       let w1 := g.w.message g.t
       let t1 := undoRedirs g.t g.saved
-      if k == .special || k == .colon || k == .exec then
+      if k == .special || k == .colon || k == .exec || k == .dot || k == .dotMissing then
         { w := w1, t := t1, status := none, exited := some 2 }
       else { w := w1, t := t1, status := some 2 }
     | none =>
@@ -216,6 +222,18 @@ def runCommand (w : World) (t : FdTable) (k : Kind) (rs : List Redir) (prev : Na
       | .exec | .commandExec =>
         { w := g.w, t := preserveRedirs g.t g.saved, status := some 0, saved := g.saved }
       | .colon => { w := g.w, t := undoRedirs g.t g.saved, status := some 0, saved := g.saved }
+      | .dot | .dotMissing =>
+        -- `source::Command::execute`: open + `move_fd_internal`, read-eval loop, `close(fd)`;
+        -- failure to open is reported by a special built-in: the shell exits with FAILURE
+        let r := openScript worldOracle g.w g.t (if k == .dot then 10 else pathEnotdir)
+        match r.2.2 with
+        | none =>
+          { w := r.1.message r.2.1, t := undoRedirs r.2.1 g.saved, status := none, exited := some 1,
+            saved := g.saved }
+        | some fd =>
+          let (w1, wrote, rd) := probeIO r.1 r.2.1
+          { w := w1, t := undoRedirs (r.2.1.close fd) g.saved, during := some (r.1, r.2.1),
+            wrote := some wrote, readRes := some rd, status := some 0, saved := g.saved, script := some fd }
       | .notFound =>
         { w := g.w.message g.t, t := undoRedirs g.t g.saved, status := some 127, saved := g.saved }
       | _ =>
